@@ -163,6 +163,7 @@ type Log struct {
 	noExit     bool
 	keepAll    bool
 	wantLeft   bool
+	lean       bool
 	minimizing bool
 	// watchdog: a single Check that exceeds these budgets is cut off by making every further
 	// invocation skip at once; the scenario is then inconclusive (never held, never violated)
@@ -262,6 +263,10 @@ func (l *Log) prop(body func(x *X)) func(*rapid.T) {
 		}()
 		body(x)
 		inv.Returned = true
+		if l.lean && len(inv.Intents) == 0 {
+			inv.Draws, inv.Trace, inv.Cand = nil, nil, nil // long passing runs: keep only the skeleton
+			inv.trimmed = true
+		}
 	}
 }
 
